@@ -16,7 +16,8 @@ LEVEL = "exploration"
 RULE = (
     "repositories = random acyclic dependency graphs of 2-9 named types (records, enums, fixed) "
     "over 1-3 namespaces, one <full name>.avsc per type, referring to each other from fields, "
-    "array items, map values and union branches, with diamonds and repeated use at several depths, "
+    "array items, map values and union branches (also twice in one union: directly and as a collection), "
+    "namespaces carried by a namespace attribute or by a dotted name alone, with diamonds and repeated use at several depths, "
     "references spelled qualified or namespace-relative. Oracle: canonical form of "
     "load_schema(root) == independent canonical form of the model schema with every type inlined "
     "at its first use; schemaless_writer bytes under the loaded schema == bytes under the inlined "
@@ -35,7 +36,8 @@ SHARDS = 16
 REACH = {
     "quick": {"repositories": 1000, "diamonds": 100, "type_used_3_times": 100, "relative_refs_cross_file": 100,
               "site_field": 100, "site_array": 100, "site_map": 100, "site_union": 100, "missing_file_cases": 2000,
-              "ordered_loads": 1500, "bytes_compared": 2000},
+              "ordered_loads": 1500, "bytes_compared": 2000,
+              "dotted_name_definitions": 300, "same_type_twice_in_union": 300},
     "thorough": {"repositories": 30000},
 }
 NAMESPACES = ["", "org.a", "org.a.b", "zz"]
@@ -68,7 +70,9 @@ def gen_repo(rng):
         ns, _, short = full.rpartition(".")
         k = kinds[full]
         js = {"type": k, "name": short}
-        if ns or rng.random() < 0.3:
+        if ns and rng.random() < 0.25:
+            js["name"] = full  # the namespace is carried by the dotted name alone
+        elif ns or rng.random() < 0.3:
             js["namespace"] = ns
         if k == "enum":
             js["symbols"] = ["A", "B", "C"][: rng.randint(1, 3)]
@@ -87,7 +91,7 @@ def gen_repo(rng):
                         spelled, sp = dshort, "relative"
                     else:
                         spelled, sp = dst, "qualified"
-                    site = rng.choice(["field", "array", "map", "union", "union_first", "nested"])
+                    site = rng.choice(["field", "array", "map", "union", "union_first", "nested", "union_twice"])
                     if site == "field":
                         f["type"] = spelled
                     elif site == "array":
@@ -96,6 +100,12 @@ def gen_repo(rng):
                         f["type"] = {"type": "map", "values": spelled}
                     elif site == "union":
                         f["type"] = ["null", spelled]
+                    elif site == "union_twice":
+                        # the same type in two branches of one union: a direct reference and a collection of it
+                        other = dst if rng.random() < 0.5 or dns != ns else dshort
+                        coll = {"type": "array", "items": other} if rng.random() < 0.5 else {"type": "map", "values": other}
+                        f["type"] = rng.choice([["null", spelled, coll], [coll, spelled], [spelled, coll, "string"]])
+                        site = "union"
                     elif site == "union_first":
                         f["type"] = [spelled, "string"]
                         site = "union"
@@ -217,6 +227,11 @@ def one_repo(sh, fa, rng, scratch, idx):
             sh.count("diamonds")
         if any(v >= 3 for v in indeg.values()):
             sh.count("type_used_3_times")
+        if any("." in js["name"] for js in types.values()):
+            sh.count("dotted_name_definitions")
+        if any(isinstance(f["type"], list) and sum(1 for b in f["type"] if b not in ("null", "string")) >= 2
+               for js in types.values() for f in js.get("fields", [])):
+            sh.count("same_type_twice_in_union")
         root_path = os.path.join(d, root + ".avsc")
         st, loaded = guard(load_schema, root_path)
         if st == "exc":
@@ -235,10 +250,13 @@ def one_repo(sh, fa, rng, scratch, idx):
             st, b1 = guard(wb, fa, loaded, x)
             st2, b2 = guard(wb, fa, copy.deepcopy(model), x)
             try:
-                b3 = RB.encode(node, RC.from_datum(node, x))
+                # bytes at an array position: both readings of "non-string sequence" (A17) are accepted
+                b3s = [RB.encode(node, RC.from_datum(node, x, True, loose)) for loose in (False, True)]
             except Exception:
-                b3 = None
-            if st == "exc" or st2 == "exc" or b1 != b2 or (b3 is not None and b1 != b3 and RB.strip_spans(RB.decode_all(node, b1)) != RB.strip_spans(RB.decode_all(node, b3))):
+                b3s = None
+            def agrees(b):
+                return b1 == b or RB.strip_spans(RB.decode_all(node, b1)) == RB.strip_spans(RB.decode_all(node, b))
+            if st == "exc" or st2 == "exc" or b1 != b2 or (b3s is not None and not any(agrees(b) for b in b3s)):
                 sh.violation("encoding-differs", "loaded: %s, inlined: %s" % (exc_name(b1) if st == "exc" else b1[:40].hex(), exc_name(b2) if st2 == "exc" else b2[:40].hex()),
                              dict(info, datum=x))
                 return
